@@ -139,13 +139,17 @@ def main():
                 if res.h.should_panic and not [p for p in playback if p[0] != "cover"]:
                     # a "returned normally" witness in a should_panic harness is a cover trace
                     playback = [("assertion", d, v) for (k, d, v) in playback if d in res.h.must_unsat]
+                if res.h.meta.get("replay_template") == "pk_teddy" and not [p for p in playback if p[0] != "cover"]:
+                    # a pointer/bounds check failed without solver values (an out-of-bounds pointer was formed
+                    # or dereferenced): confirmed natively on guard-page-backed memory (vdump guardteddy)
+                    playback = [("assertion", res.failed_checks[0][1] if res.failed_checks else "failed", None)]
                 if not res.h.schema and not [p for p in playback if p[0] != "cover"]:
                     # harnesses whose native replay is exhaustive need no solver values
                     playback = [("assertion", res.failed_checks[0][1] if res.failed_checks else "failed", [])]
                 for (kind, desc, vals) in playback:
                     if kind == "cover":
                         continue
-                    decoded = core.decode_playback(res.h.schema, vals)
+                    decoded = {} if vals is None else core.decode_playback(res.h.schema, vals)
                     if decoded is None:
                         continue
                     tried += 1
